@@ -90,6 +90,11 @@ def judge(sizes, m, spreads, layout, draw, repeat=1, respread=False, shaped=Fals
         except seams.HarnessError as e:
             sampler.script = []
             return f"step {step}: donor draw does not take exactly m={m} of the donor's points: {e}", tag
+        except Exception as e:
+            # neither a result nor the donor-shortage error (e.g. a draw of m points asked of a donor holding fewer)
+            sampler.script = []
+            return (f"step {step}: sizes {sizes_now}, m={m}, spreads {spreads}: raised {type(e).__name__}: {e} "
+                    f"(neither a result nor the donor-shortage RuntimeError)"), tag
         finally:
             sampler.default_mode = "first"
         leftover = list(sampler.script)
